@@ -19,9 +19,20 @@ META = {
 }
 
 
+def iteration_view(crate):
+    """Runner::run_one with its single-use helpers (limit wrappers, a split-off stop check) inlined"""
+    ro = crate.method("run::runner::Runner", "run_one")
+    if len(ro) != 1:
+        raise mir.AnchorMissing("Runner::run_one")
+    return mir.inline_view(crate, ro[0], keep=("apply_rewrites", "check_limits"))
+
+
 def reason_sites(crate):
     out = []
-    for b in crate.bodies.values():
+    view = iteration_view(crate)
+    skip = set(getattr(view, "inlined", []))
+    bodies = [b for b in crate.bodies.values() if b.id not in skip and b.id != view.id] + [view]
+    for b in bodies:
         if not (b.file or "").startswith("src/run/"):
             continue
         for bi, si, s in b.statements():
@@ -198,23 +209,44 @@ def s4(ctx):
     rn = crate.method("run::runner::Runner", "run")
     if len(ro) != 1 or len(rn) != 1:
         raise mir.AnchorMissing("Runner::run_one / Runner::run")
-    ro, rn = ro[0], rn[0]
-    ats = [c for c in ro.calls if c.callee and c.callee.name == "and_then" and not ro.blocks[c.bb]["cleanup"]]
+    ro_raw, rn = ro[0], rn[0]
+    ro = iteration_view(crate)
+    # where the limits / the hooks are consulted: a direct call, or a combinator (and_then, try_for_each ..) whose closure does it
     limit_calls = []
     hook_calls = []
-    for c in ats:
-        cl = strip_role(ro.role_of_operand(c.args[1]))
-        if cl[0] == "agg" and cl[1] in crate.bodies:
-            cb = crate.bodies[cl[1]]
-            names = {x.callee.name for sub in cb.all_bodies() for x in sub.calls if x.callee}
-            if "check_limits" in names:
-                limit_calls.append(c)
-            if "call_mut" in names or "try_for_each" in names:
-                hook_calls.append(c)
-    for what, cs in (("limits", limit_calls), ("hooks", hook_calls)):
-        ok = bool(cs) and ro.must_pass([0], ro.return_blocks(), {c.bb for c in cs})
-        ctx.check(ok, "every-iteration:" + what, "every path through run_one chains the %s check" % what,
-                  "run_one has a path to return on which the %s are not consulted: the loop can overrun its bound / ignore a failing hook" % what, where_of(ro))
+    for c in ro.calls:
+        if ro.blocks[c.bb]["cleanup"] or not c.callee:
+            continue
+        names = {c.callee.name}
+        for a in c.args:
+            cl = strip_role(ro.role_of_operand(a))
+            if isinstance(cl, tuple) and cl[0] == "agg" and cl[1] in crate.bodies:
+                names |= {x.callee.name for sub in crate.bodies[cl[1]].all_bodies() for x in sub.calls if x.callee}
+        if "check_limits" in names or (c.callee.name == "check_limits"):
+            limit_calls.append(c)
+        if ("call_mut" in names or "try_for_each" in names) and (c.callee.name in ("and_then", "try_for_each", "call_mut", "for_each", "map_err") or "call_mut" == c.callee.name):
+            hook_calls.append(c)
+    st_blocks = {bi for bi, si, s in ro.statements() if s["k"] == "assign" and mir.place_has_field(s["lhs"], "run::runner::Runner", "stop_reason")
+                 and not (s["rv"]["k"] == "agg" and str(s["rv"].get("variant")) == "None")}
+    # ... or by producing the Err that `stop-reason-from-result` (below) shows is recorded: `?` / an explicit Err(..)
+    for bi, si, s_ in ro.statements():
+        if s_["k"] == "assign" and s_["rv"]["k"] == "agg" and s_["rv"].get("adt") == "std::result::Result" and s_["rv"].get("variant") == "Err":
+            st_blocks.add(bi)
+    st_blocks |= {c.bb for c in ro.calls if c.callee and c.callee.name == "from_residual" and not ro.blocks[c.bb]["cleanup"]}
+    hook_loops = [lp for lp in C.iterator_loops(ro) if role_mentions_field(lp[1], "hooks") or any(c.bb in ro.reach(lp[3], avoid=lp[2]) for c in hook_calls)]
+    hook_done = {e for lp in hook_loops for e in lp[2]}        # the loop over the hooks ran to its end
+    for what, cs, extra in (("limits", limit_calls, set()), ("hooks", hook_calls, hook_done)):
+        # a path may skip the check only if it ends by recording a stop reason (an earlier check already failed)
+        through = ({c.bb for c in cs} - ({c.bb for lp in hook_loops for c in cs if c.bb in ro.reach(lp[3], avoid=lp[2])} if extra else set())) | extra | st_blocks
+        ok = bool(cs) and ro.must_pass([0], ro.return_blocks(), through)
+        ctx.check(ok, "every-iteration:" + what, "every path through run_one consults the %s unless a stop reason was already found" % what,
+                  "run_one has a path to return on which the %s are not consulted and no stop reason is recorded: the loop can overrun its bound / ignore a failing hook" % what, where_of(ro_raw))
+    # a hook loop written out by hand visits every hook unless one fails
+    for lp in hook_loops:
+        if True:
+            sb, it, none_e, some_e, cs_ = lp
+            ok = ro.must_pass(some_e, ro.return_blocks(), set(none_e) | st_blocks)
+            ctx.check(ok, "every-iteration:all-hooks", "the hook loop is left early only towards recording a stop reason", "the hook loop can be left early without a stop reason: later hooks are skipped silently", where_of(ro, sb))
     ap = [c for c in ro.calls if c.callee and c.callee.name == "apply_rewrites"]
     ctx.check(len(ap) == 1 and ro.must_pass([0], ro.return_blocks(), {c.bb for c in ap}), "one-apply-per-iteration", "run_one applies the rules exactly once", "run_one does not apply the rules exactly once per iteration", where_of(ro))
     st = [bi for bi, si, s in ro.statements() if s["k"] == "assign" and mir.place_has_field(s["lhs"], "run::runner::Runner", "stop_reason")]
@@ -237,6 +269,11 @@ def s4(ctx):
         r = rn.role_of_operand(t["discr"])
         if r[0] == "discr" and role_mentions_field(r[1], "stop_reason"):
             exits += C.variant_edges(rn, sb, 1)
+    for e, cond in C.all_cond_edges(rn):
+        r = strip_role(cond[1]) if len(cond) > 1 else None
+        if isinstance(r, tuple) and r[0] == "call" and role_mentions_field(r, "stop_reason"):
+            if (r[1] == "is_none" and cond[0] == "false") or (r[1] == "is_some" and cond[0] == "true"):
+                exits.append(e)
     ok = bool(exits) and rn.must_pass([0], rn.return_blocks(), exits)
     ctx.check(ok, "run-exits-with-reason", "Runner::run leaves its loop only when stop_reason is Some", "Runner::run can return without a stop reason having been set", where_of(rn))
     r1 = [c for c in rn.calls if c.callee and c.callee.target == ro.id]
